@@ -347,7 +347,7 @@ static void exec_lattice(Plan const& p, Report& rep)
 // ------------------------------------------------------------------------------------------------
 // poison: C06
 
-static Plan gen_poison(Rng& r, int tier, std::string const&)
+static Plan gen_poison(Rng& r, int tier, std::string const& focus)
 {
     Plan p;
     p.scn = "poison";
@@ -356,6 +356,12 @@ static Plan gen_poison(Rng& r, int tier, std::string const&)
     o.max_calls = tier ? 1000 : 200;
     o.allow_zero_calls = false;
     gen_world(r, p, o);
+    if (focus == "C11")
+    {
+        // non-finite weighted values handed to distributions
+        p.acc = 1;
+        if (p.dists.empty()) gen_dists(r, p, 1 + static_cast<int>(r.below(2)), false);
+    }
     if (p.calls.size() < 2) p.calls.push_back(20 + r.below(100));
     if (p.fk == F_ZERO) p.fk = F_POLY;
     p.cbk = 1;
@@ -811,8 +817,11 @@ static void exec_select(Plan const& p, Report& rep)
         }
         lo /= tot;
         hi /= tot;
+        // the cumulative sums carry a relative error of a few eps per term: the ends of the interval
+        // are uncertain relative to their own magnitude (an absolute tolerance would hide channels
+        // whose whole interval is tiny)
         ld const tol = (2 + alpha.size()) * eps;
-        if (!(u >= lo - tol && u <= hi + tol))
+        if (!(u >= lo * (1 - tol) && u <= hi * (1 + tol)))
         {
             rep.fail("C09", "outside-interval", key, fmt("%s: selector %.21Lg gives channel %llu covering [%.21Lg, %.21Lg]",
                 how, u, (unsigned long long) sel, lo, hi));
